@@ -196,6 +196,7 @@ class Obligations:
 # query is run (stage 2); only stage 2 can produce a counterexample.
 _UMUL_R = z3.Function("umul", z3.RealSort(), z3.RealSort(), z3.RealSort())
 _UMUL_I = z3.Function("umuli", z3.IntSort(), z3.IntSort(), z3.IntSort())
+_UDIV_R = z3.Function("udiv", z3.RealSort(), z3.RealSort(), z3.RealSort())
 
 
 def abstract_mul(t, cache=None):
@@ -234,6 +235,8 @@ def abstract_mul(t, cache=None):
                 for c in consts:
                     acc = c * acc
                 cache[k] = acc
+        elif e.decl().kind() == z3.Z3_OP_DIV and not (z3.is_rational_value(nch[1]) or z3.is_int_value(nch[1])):
+            cache[k] = _UDIV_R(nch[0], nch[1])
         elif ch:
             cache[k] = e.decl()(*nch)
         else:
@@ -271,6 +274,10 @@ def has_nonlinear(t, seen=None):
             if e.decl().kind() == z3.Z3_OP_MUL:
                 non = [c for c in e.children() if not (z3.is_rational_value(c) or z3.is_int_value(c))]
                 if len(non) > 1:
+                    return True
+            if e.decl().kind() == z3.Z3_OP_DIV:
+                d = e.children()[1]
+                if not (z3.is_rational_value(d) or z3.is_int_value(d)):
                     return True
             stack.extend(e.children())
     return False
